@@ -191,6 +191,10 @@ func IsKnown(property, sig string) bool {
 	if os.Getenv("VERIF_NOKNOWN") == "1" {
 		return false
 	}
+	// replaying one finding's own file: only that signature is treated as unknown
+	if u := os.Getenv("VERIF_UNKNOWN_SIG"); u != "" && u == sig {
+		return false
+	}
 	knownOnce.Do(loadKnown)
 	return knownSigs[property][sig]
 }
